@@ -23,6 +23,21 @@ func intHeavyTables(r *RNG, n int) []*hTable {
 			t.cols = append(t.cols, col)
 		}
 		ts = append(ts, t)
+		// "decoded with the column types of the most recent table map for that id": a second definition of the same
+		// id — same table, same column names and signedness (the mapper is asked once per id), same column count,
+		// but other integer widths / string metadata, as after an in-place ALTER that kept the id
+		if r.Chance(1, 3) {
+			v := &hTable{id: t.id, db: t.db, name: t.name}
+			for _, c := range t.cols {
+				if c.typ == 15 {
+					c.md = r.Pick(20, 300)
+				} else {
+					c.typ = []int{1, 2, 9, 3, 8}[r.Intn(5)]
+				}
+				v.cols = append(v.cols, c)
+			}
+			ts = append(ts, v)
+		}
 	}
 	return ts
 }
@@ -36,11 +51,12 @@ func genAttributionHistory(r *RNG, cfg string) *hist {
 	for u := 0; u < nu; u++ {
 		ts++
 		unit := hUnit{kind: "tx", ts: ts, begin: "BEGIN", closer: fmt.Sprintf("x%d", u)}
-		seen := map[int]bool{}
+		last := map[uint64]int{} // table id -> index of the definition announced last in this transaction
 		for k := r.Range(1, 4); k > 0; k-- {
 			ti := r.Intn(len(h.tables))
-			c := genRows(r, h, o, ti, ts, !seen[ti] || r.Bool()) // re-announcements inside a transaction
-			seen[ti] = true
+			prev, was := last[h.tables[ti].id]
+			c := genRows(r, h, o, ti, ts, !was || prev != ti || r.Bool()) // re-announcements inside a transaction
+			last[h.tables[ti].id] = ti
 			// high-bit values so that signedness is visible; partial images so that ordinals matter
 			for i := range c.rows {
 				for side := 0; side < 2; side++ {
